@@ -40,7 +40,12 @@ type Case struct {
 	SrvStore  bool   `json:"srvstore,omitempty"`  // the server has a session store (which does not know the offered id)
 	NoBackoff bool   `json:"nobackoff,omitempty"` // server configured with WithDisableRetransmitBackoff
 	IvlMs     int    `json:"ivl"`
-	Steps     []Step `json:"steps"`
+	// OtherGroup (1.3): the server only allows a group the first hello has no key share for, so that its
+	// HelloRetryRequest selects a group besides carrying the cookie
+	OtherGroup bool `json:"othergroup,omitempty"`
+	// PSKModes (1.3): the first hello advertises psk_key_exchange_modes, as most TLS 1.3 stacks do
+	PSKModes bool   `json:"pskmodes,omitempty"`
+	Steps    []Step `json:"steps"`
 }
 
 var hrrRandom = []byte{0xCF, 0x21, 0xAD, 0x74, 0xE5, 0x9A, 0x61, 0x11, 0xBE, 0x1D, 0x8C, 0x02, 0x1E, 0x65, 0xB8, 0x91, 0xC2, 0xA2, 0x11, 0x16, 0x7A, 0xBB, 0x8C, 0x5E, 0x07, 0x9E, 0x09, 0xE2, 0xC8, 0xA8, 0x33, 0x9C}
@@ -55,6 +60,9 @@ func epsFor(c *Case) (cl, sv scen.EP) {
 	if c.Ver == 13 {
 		cl.MinVer, cl.MaxVer, sv.MinVer, sv.MaxVer = 13, 13, 13, 13
 		cl.Curves, sv.Curves = []uint16{0x1d, 0x17}, []uint16{0x1d, 0x17}
+		if c.OtherGroup {
+			sv.Curves = []uint16{0x17} // the first hello's only key share is for 0x1d
+		}
 	}
 	cl.IntervalMs, sv.IntervalMs = c.IvlMs, c.IvlMs
 	if c.Ver == 12 {
@@ -250,6 +258,18 @@ func alter(ch *scen.ClientHello, how string) (*scen.ClientHello, bool) {
 	case "ext-add":
 		out.Exts = append(out.Exts, scen.Ext{Type: 0xfaf0, Data: []byte{1, 2, 3}})
 		out.HasExts = true
+	case "psk-add":
+		// a pre_shared_key extension (last, as it must be) the first hello did not have; 1.3 only
+		is13 := false
+		for _, e := range out.Exts {
+			is13 = is13 || e.Type == 43
+		}
+		if !is13 {
+			return &out, false
+		}
+		d := []byte{0, 10, 0, 4, 't', 'k', 't', '1', 0, 0, 0, 7, 0, 33, 32}
+		d = append(d, bytes.Repeat([]byte{0x5c}, 32)...)
+		out.Exts = append(out.Exts, scen.Ext{Type: 41, Data: d})
 	case "version":
 		out.Version = [2]byte{0xfe, 0xff}
 	default:
@@ -315,6 +335,29 @@ func run(c Case, r *pbt.R) {
 		}
 		if !c.KnownID && !c.BogusID {
 			ch1.SID = nil
+		}
+		if c.OtherGroup && c.Ver == 13 {
+			// keep only the key shares of groups the server does not allow
+			for i, e := range ch1.Exts {
+				if e.Type != 51 || len(e.Data) < 2 {
+					continue
+				}
+				var kept []byte
+				for d := e.Data[2:]; len(d) >= 4; {
+					n := 4 + int(d[2])<<8 | int(d[3])
+					if n > len(d) {
+						break
+					}
+					if !(d[0] == 0 && d[1] == 0x17) {
+						kept = append(kept, d[:n]...)
+					}
+					d = d[n:]
+				}
+				ch1.Exts[i] = scen.Ext{Type: 51, Data: append([]byte{byte(len(kept) >> 8), byte(len(kept))}, kept...)}
+			}
+		}
+		if c.PSKModes && c.Ver == 13 {
+			ch1.Exts = append(ch1.Exts, scen.Ext{Type: 45, Data: []byte{1, 1}}) // psk_dhe_ke
 		}
 		// the server under test
 		n := vnet.New()
@@ -579,7 +622,9 @@ func run(c Case, r *pbt.R) {
 
 			return
 		}
-		if accepted && !sawFlight {
+		// (with OtherGroup a hello that only adds the cookie lacks the key share the request asked for: the
+		// server may refuse it)
+		if accepted && !sawFlight && !c.OtherGroup {
 			r.Failf("C13|"+ver+"|control-failed", "the right second hello did not make the server continue (steps %+v)", c.Steps)
 
 			return
@@ -615,7 +660,7 @@ func run(c Case, r *pbt.R) {
 
 var (
 	cookies = []string{"absent", "right", "wrongbyte", "truncated", "extended", "stale", "empty"}
-	alters  = []string{"none", "random", "suites-drop", "suites-swap", "sid", "sid-content", "compression", "ext-byte", "ext-drop", "ext-add", "version", "cid-ext", "srtp-ext"}
+	alters  = []string{"none", "random", "suites-drop", "suites-swap", "sid", "sid-content", "compression", "ext-byte", "ext-drop", "ext-add", "version", "cid-ext", "srtp-ext", "psk-add"}
 )
 
 func gen(t *rapid.T) Case {
@@ -632,6 +677,10 @@ func gen(t *rapid.T) Case {
 		}
 	}
 	c.NoBackoff = rapid.IntRange(0, 3).Draw(t, "nobackoff") == 0
+	if c.Ver == 13 {
+		c.OtherGroup = rapid.IntRange(0, 2).Draw(t, "othergroup") == 0
+		c.PSKModes = rapid.Bool().Draw(t, "pskmodes")
+	}
 	ns := rapid.IntRange(1, 5).Draw(t, "nsteps")
 	for i := 0; i < ns; i++ {
 		st := Step{
@@ -651,8 +700,15 @@ func gen(t *rapid.T) Case {
 }
 
 func enumGrid(_ string, yield func(Case) bool) {
+	type v13 struct{ og, pm bool }
 	for _, ver := range []int{12, 13} {
 		for _, nb := range []bool{false, true} {
+			if ver == 13 {
+				// the request that also selects a group, left unanswered
+				if !yield(Case{Ver: 13, Family: "cert", IvlMs: 100, NoBackoff: nb, OtherGroup: true, Steps: []Step{{Cookie: "absent", Alter: "none", GapMs: 3000}}}) {
+					return
+				}
+			}
 			// silence after the first hello (the run ends with ten idle minutes), with and without backoff
 			if !yield(Case{Ver: ver, Family: "cert", IvlMs: 100, NoBackoff: nb, Steps: []Step{{Cookie: "absent", Alter: "none", GapMs: 3000}}}) {
 				return
@@ -668,6 +724,15 @@ func enumGrid(_ string, yield func(Case) bool) {
 					c := Case{Ver: ver, Family: "cert", IvlMs: 1000, Steps: []Step{{Cookie: ck, Alter: al, GapMs: gap}, {Cookie: "right", Alter: "none"}}}
 					if !yield(c) {
 						return
+					}
+					if ver == 13 && gap == 0 {
+						for _, x := range []v13{{true, false}, {false, true}} {
+							c2 := c
+							c2.OtherGroup, c2.PSKModes = x.og, x.pm
+							if !yield(c2) {
+								return
+							}
+						}
 					}
 					if ver == 12 && gap == 0 {
 						// the first hello offers a session id the server cannot know, with and without a store
